@@ -162,7 +162,15 @@ def opOracleAligns : SHandler := fun st a => do
   if !p.wf || p.size * n.size > 6000 then pure (st, Json.str "skip")
   else pure (st, Json.bool (Spec.alignsB s d.src (Spec.alignFuel p n) p n))
 
+/-- `does_node_match_exactly(a, b)` as used by `MetaVarEnv::insert` for a repeated variable -/
+def opExactMatch : SHandler := fun st a => do
+  let d ← getDoc st a
+  let x ← getNode d a "a"
+  let y ← getNode d a "b"
+  pure (st, Json.bool (exactMatch d.src x y))
+
 def treeOps : List (String × SHandler) := [
+  ("exact_match", opExactMatch),
   ("oracle:aligns", opOracleAligns),
   ("pattern_wf", opPatternWf), ("info:holes_ok", opHolesOK),
   ("tree", opTree), ("cut_shape", opCutShape), ("match", opMatch)]
